@@ -30,7 +30,8 @@ static uint64_t get_varuint(
 
   *length = 0;
 
-  while (done == 0)
+  // A 64 bit LEB128 number is at most 10 bytes long.
+  while (done == 0 && *length < 10)
   {
     ch = memory->read8(address++);
 
@@ -62,7 +63,8 @@ static int64_t get_varint(
 
   *byte_count = 0;
 
-  while (done == 0)
+  // A 64 bit LEB128 number is at most 10 bytes long.
+  while (done == 0 && *byte_count < 10)
   {
     ch = memory->read8(address++);
 
@@ -104,7 +106,11 @@ static const char *get_type(int type)
   return "???";
 }
 
-static int print_table(Memory *memory, uint32_t address, FILE *out)
+static int print_table(
+  Memory *memory,
+  uint32_t address,
+  uint32_t end,
+  FILE *out)
 {
   int byte_count = 0, total_length, entry, n, count = 0;
 
@@ -113,7 +119,8 @@ static int print_table(Memory *memory, uint32_t address, FILE *out)
   address += total_length;
   byte_count += count;
 
-  for (n = 0; n < count; n++)
+  // A damaged count must not list entries beyond the end of the code.
+  for (n = 0; n < count && address <= end; n++)
   {
     entry = get_varint(memory, address, &byte_count);
 
@@ -248,7 +255,11 @@ void list_output_webasm(
 
   if (opcode == 0x0e)
   {
-    start += print_table(&asm_context->memory, start + 1, asm_context->list);
+    start += print_table(
+      &asm_context->memory,
+      start + 1,
+      0xffffffff,
+      asm_context->list);
   }
 }
 
@@ -297,7 +308,7 @@ void disasm_range_webasm(
 
     if (opcode == 0x0e)
     {
-      start += print_table(memory, start + 1, stdout);
+      start += print_table(memory, start + 1, end, stdout);
     }
 
     start += count;
